@@ -3,6 +3,7 @@ import PilotaModel.Proto.Wire
 import PilotaModel.Proto.Scalar
 import PilotaModel.Proto.Schema
 import PilotaModel.Proto.SpecExec
+import PilotaModel.Proto.Group
 /-  Line-protocol verbs of track Pb: the model's answer to each request of harness/pbshared. -/
 namespace Driver.Pb
 open Pilota Pilota.Proto
@@ -298,6 +299,25 @@ def answer (items0 : List Sexp) : Option String := do
     match Spec.decode ps i bs with
     | some r => pure s!"ok {slotsSexp r}"
     | none => pure "err"
+  | "pbgrpenc" =>
+    let bt := (← items[1]? >>= Sexp.asAtom) == "bt"
+    let flag ← items[2]? >>= Sexp.asAtom >>= flagOf
+    let s ← items[3]? >>= schemaOf
+    let i ← items[4]? >>= Sexp.asNat
+    let tag ← items[5]? >>= Sexp.asNat
+    let m ← items[6]? >>= slotsOf s (decls s i)
+    let m := if bt then sortSlots m else m
+    let b := groupEncode s flag tag i m
+    let shown := if !bt && (Slots.toList m).any multiSlot then "~" else hexOrDash b
+    pure s!"ok {shown} len={groupEncodedLen s flag tag i m}"
+  | "pbgrpdec" =>
+    let s ← items[2]? >>= schemaOf
+    let i ← items[3]? >>= Sexp.asNat
+    let tag ← items[4]? >>= Sexp.asNat
+    let bs ← items[5]? >>= Sexp.asHex
+    match groupMerge s recursionLimit tag .sgroup i (defaultMsg s i) bs with
+    | .ok (r, rest) => pure s!"ok {slotsSexp r} rem={rest.length}"
+    | o => pure o.cls
   | "pbunk" | "pbilv" =>
     let s ← items[2]? >>= schemaOf
     let i ← items[3]? >>= Sexp.asNat
